@@ -778,6 +778,10 @@ func genCr(g *hx.Gen, n int) {
 				pcert = "5"
 			}
 		}
+		g.Stat("cr.template")
+		if issuer != "-" && issuer != strconv.Itoa(e.by) && issuer != strconv.Itoa(signer) {
+			g.Stat("cr.wrong-issuer")
+		}
 		g.Emit("cr status=%d serial=%s this=%d next=%d rev=%d reason=%d ihash=%d alg=%d exts=%s cert=%s signer=%d styp=%s issuer=%s pcert=%s loc=%s",
 			status, serial, tm(), tm(), tm(), reason, ihash, alg, hx.JoinStrs(exts), cert, signer, e.styp, issuer, pcert, b01(r.Chance(1, 4)))
 	}
@@ -810,6 +814,7 @@ func genReq(g *hx.Gen, n int) {
 			hh.Write(spkiBits(ents[iss].cert))
 			kh = hx.Hex(hh.Sum(nil))
 		}
+		g.Stat("req.roundtrip")
 		g.Emit("req hash=%d serial=%s issuer=%d o.nh=%s o.kh=%s", h, randSerial(r).String(), iss, nh, kh)
 	}
 }
@@ -843,9 +848,11 @@ func genPreq(g *hx.Gen, n int) {
 		g.Emit("preq %s der=%s", reqFacts(der), hx.Hex(der))
 		for m := 0; m < 2; m++ {
 			d := mutateDER(r, der)
+			g.Stat("preq.mutant")
 			g.Emit("preq %s der=%s", reqFacts(d), hx.Hex(d))
 		}
 		if r.Chance(1, 5) {
+			g.Stat("preq.random-bytes")
 			d := r.Bytes(r.Intn(30))
 			g.Emit("preq %s der=%s", reqFacts(d), hx.Hex(d))
 		}
